@@ -67,7 +67,7 @@ func EstablishPDU(sst int32, sd string, ue *tglib.RanUeContext, conn *sctp.SCTPC
 
 	ueSupi := strings.Split(ue.Supi, "-")[1]
 	supiInt, _ := strconv.Atoi(ueSupi)
-	pduId := int64(supiInt % 1e4) //TODO: Check if it works with large SUPI numbers
+	pduId := int64(supiInt%15) + 1 // PDU session identity: 1..15 (TS 24.007 11.2.3.1b)
 
 	pdu := nasTestpacket.GetUlNasTransport_PduSessionEstablishmentRequest(uint8(pduId),
 		nasMessage.ULNASTransportRequestTypeInitialRequest,
@@ -127,7 +127,7 @@ func ReleasePDU(sst int32, sd string, ue *tglib.RanUeContext, conn *sctp.SCTPCon
 	supiInt, err := strconv.Atoi(ueSupi)
 	ManageError("Error releasing PDU", err)
 
-	pduId := int64(supiInt % 1e4) //TODO: Check if it works with large SUPI numbers
+	pduId := int64(supiInt%15) + 1 // PDU session identity: 1..15 (TS 24.007 11.2.3.1b)
 	pdu := nasTestpacket.GetUlNasTransport_PduSessionReleaseRequest(uint8(pduId))
 	pdu, err = tglib.EncodeNasPduWithSecurity(ue,
 		pdu,
@@ -196,7 +196,7 @@ func ModifyPDU(sst int32, sd string, ue *tglib.RanUeContext, conn *sctp.SCTPConn
 	supiInt, err := strconv.Atoi(ueSupi)
 	ManageError("Error modifying PDU", err)
 
-	pduId := int64(supiInt % 1e4) //TODO: Check if it works with large SUPI numbers
+	pduId := int64(supiInt%15) + 1 // PDU session identity: 1..15 (TS 24.007 11.2.3.1b)
 
 	pdu := nasTestpacket.GetUlNasTransport_PduSessionModificationRequest(uint8(pduId),
 		nasMessage.ULNASTransportRequestTypeExistingPduSession,
